@@ -22,7 +22,9 @@ CallBad(c) ==
       spec == RoundTrip(c.fmt, c.syn, c.expand, cv)
       r == [out |-> IF c.back[1] = "ok" THEN Ok ELSE Raise(c.back[3]), conv |-> IF c.back[1] = "ok" THEN JConv(c.back[2]) ELSE EmptyConv(<<58>>)]
   IN IF c.back[1] # "ok" THEN {"post.read_after_write." \o c.fmt \o ".raise"}
-     ELSE {"post.read_after_write." \o c.fmt \o "." \o x : x \in Diff(spec.conv, r.conv)} \cup
+     ELSE {"post.read_after_write." \o c.fmt \o "." \o x : x \in Diff(spec.conv, r.conv) \cap
+              \* synonym output is read back non-strictly: only the prefix map (and the patterns) are fixed by the property
+              (IF c.syn /\ c.fmt \in {"jsonld", "shacl"} THEN {"pm", "pat"} ELSE {"recs", "pm", "s2p", "rpm", "trie", "pat"})} \cup
           (IF ~P_C14(c.fmt, c.syn, cv, r) THEN {"mon.C14." \o c.fmt} ELSE {})
 Groups == D.groups
 VARIABLES g, step
